@@ -120,6 +120,20 @@ Example C17_channel_capacity_matters :
 Proof. repeat split; vm_compute; reflexivity. Qed.
 Print Assumptions C17_channel_capacity_matters.
 
+(* A GetUtxo / GetCFilter / GetBlock call that fails with an error of its own
+   is accepted only in a scenario that is mid-sync or mid-reorganisation; the
+   same outcome while idle, without peers or never started is rejected, and
+   so is the same class for the other calls, and a hung call always. *)
+Example C17_own_error_only_mid_sync :
+  holds (mkCase 2 1 0 false false [(2, false, 4)] true 40 0) = true
+  /\ holds (mkCase 1 1 0 false false [(1, false, 4); (0, false, 4)] true 40 0) = true
+  /\ holds (mkCase 0 1 0 false false [(2, false, 4)] true 40 0) = false
+  /\ holds (mkCase 3 0 0 false false [(2, false, 4)] true 40 0) = false
+  /\ holds (mkCase 2 1 0 false false [(4, false, 4)] true 40 0) = false
+  /\ holds (mkCase 2 1 0 false false [(2, false, 5)] true 40 0) = false.
+Proof. repeat split; vm_compute; reflexivity. Qed.
+Print Assumptions C17_own_error_only_mid_sync.
+
 (* Non-vacuity: a state with a transaction broadcast, a UTXO scan and a
    filter-header query in flight and callers of every kind blocked runs
    through all stages and needs the full timer budget. *)
